@@ -27,6 +27,16 @@ def main():
 
     sh.open = spy
     tk.open = spy
+    if hasattr(sh, "tokenize") and hasattr(sh.tokenize, "open"):
+        # the file entry point may open its source through the standard library's tokenize.open (PEP 263 detection)
+        real_tokenize_open = sh.tokenize.open
+
+        def spy_tokenize_open(file, *a, **k):
+            f = real_tokenize_open(file, *a, **k)
+            opened.append((os.path.basename(str(file)), getattr(f, "encoding", None)))
+            return f
+
+        sh.tokenize.open = spy_tokenize_open
 
     class Timeout(BaseException):
         pass
@@ -67,7 +77,17 @@ def main():
     for n in names:
         p = os.path.join(casedir, n)
         with builtins.open(p, "rb") as f:
-            text = f.read().decode("utf-8-sig")  # the content as CPython decodes a source file: a UTF-8 byte order mark is not part of it
+            raw = f.read()
+        # the content as CPython decodes a source file: the encoding of a PEP 263 declaration (default UTF-8), a UTF-8 byte order mark
+        # is not part of it; line ends are left as they are (the string entry point has to translate them itself)
+        try:
+            import io as _io
+            import tokenize as _pytok
+
+            enc, _ = _pytok.detect_encoding(_io.BytesIO(raw).readline)
+            text = raw.decode(enc)
+        except (SyntaxError, UnicodeDecodeError, LookupError):
+            text = raw.decode("utf-8-sig", "replace")
         del opened[:]
         fsig = sig(XonshParser.parse_file, pathlib.Path(p))
         seen = list(opened)
